@@ -120,6 +120,15 @@ def c09(ctx):
         if r['l1'] or r['loop_exceptions']:
             ctx.violation(sig, '; '.join((r['l1'] + r['loop_exceptions'])[:4]),
                           replay=rp)
+    elif rp['kind'] == 'behaviour':
+        steps = [(tuple(l) if isinstance(l, list) else l, None)
+                 for l in rp['script']]
+        r = rekey.replay(steps, rp['thresh'][0], rp['thresh'][1],
+                         timer=rp.get('timer', ''))
+        print('l1:', r['l1'])
+        ctx.count(('replay', 'behaviour'))
+        if r['l1']:
+            ctx.violation(sig, '; '.join(r['l1'][:3]), replay=rp)
     else:
         raise SystemExit(f'replay kind {rp["kind"]} needs the model states; '
                          'run the check itself')
